@@ -562,11 +562,18 @@ func (obj *SparseInt64Vector) Import(filename string) error {
     } else {
       indices = append(indices, int(v))
     }
-    if v, err := strconv.ParseFloat(fields[1], 64); err != nil {
+    if vi, vf, isInt, err := parseTableEntry(fields[1]); err != nil {
       return err
     } else {
-      values = append(values, int64(v))
+      if isInt {
+        values = append(values, int64(vi))
+      } else {
+        values = append(values, int64(vf))
+      }
     }
+  }
+  if err := checkSparseIndices(indices, n); err != nil {
+    return err
   }
   *obj = *NewSparseInt64Vector(indices, values, n)
   return nil
@@ -599,6 +606,9 @@ func (obj *SparseInt64Vector) UnmarshalJSON(data []byte) error {
   }
   if len(r.Index) != len(r.Value) {
     return fmt.Errorf("invalid sparse vector")
+  }
+  if err := checkSparseIndices(r.Index, r.Length); err != nil {
+    return err
   }
   *obj = *NewSparseInt64Vector(r.Index, r.Value, r.Length)
   return nil
